@@ -22,7 +22,7 @@ verus! {
 //@ sig r
     requires bi(*path_0_) >= 1, bi(*path_1_) >= 1
     ensures bi(r) == compose(bi(*path_0_), bi(*path_1_))
-//@ after @<let mut temp_path = path_0.clone();>@
+//@ after stmt @<let mut temp_path>@
     let ghost mut k: nat = 0;
     proof { lemma2_to64(); }
 //@ loop 0
@@ -34,11 +34,11 @@ verus! {
             bi(path_1) == bi(*path_1_) * (pow2(k) as int),
             plen(bi(path_0)) == k + plen(bi(temp_path)),
         decreases bi(temp_path)
-//@ before @<path_1 <<= 1;>@
+//@ before stmt @<path_1 <<=>@
         let ghost m0 = bi(mask);
         let ghost t0 = bi(temp_path);
         let ghost p10 = bi(path_1);
-//@ after @<temp_path >>= 1;>@
+//@ after stmt @<temp_path >>=>@
         proof {
             lemma2_to64();
             assert(pow2(1) == 2);
@@ -51,7 +51,7 @@ verus! {
             assert(plen(t0) == 1 + plen(t0 / 2));
             k = k + 1;
         }
-//@ before @<path_1 | (path_0 & mask)>@
+//@ before tail
     proof {
         lemma_pow2_pos(k);
         broadcast use num_bigint::and_low_mask, num_bigint::or_disjoint;
